@@ -406,3 +406,31 @@ fn c01_hest_checksum_after_256_sources() {
         assert_eq!(le32_at(&b, 36), i + 1, "error source count");
     }
 }
+
+// ---- fixed tables
+#[test]
+fn c02_spcr_length_and_namespace_offset() {
+    use acpi_tables::spcr::*;
+    let b = ser(&SPCR::sbi(*b"FOOBAR", *b"DECAFCOF", 1));
+    check_table("SPCR", &b);
+    // SPCR revision 4: NamespaceStringLength at 84, NamespaceStringOffset at 86 (from the table start)
+    let nlen = le16_at(&b, 84) as usize;
+    let noff = le16_at(&b, 86) as usize;
+    assert_eq!(noff, 88, "NamespaceStringOffset is relative to the start of the table");
+    assert_eq!(noff + nlen, b.len(), "namespace string ends the table");
+    assert_eq!(&b[noff..], &[b'.', 0]);
+}
+#[test]
+fn c02_rqsc_empty_table_length() {
+    use acpi_tables::rqsc::*;
+    let b = ser(&RQSC::new(*b"FOOBAR", *b"DECAFCOF", 1));
+    check_table("RQSC(new)", &b);
+    assert_eq!(le32_at(&b, 36), 0, "controller count");
+}
+#[test]
+fn c01_tcpa_server_checksum_without_builder_calls() {
+    use acpi_tables::tpm2::*;
+    let b = ser(&TpmServer1_2::new(*b"FOOBAR", *b"DECAFCOF", 1));
+    check_table("TCPA server (new)", &b);
+    assert_eq!(le16_at(&b, 36), 1, "platform class = server");
+}
